@@ -50,7 +50,10 @@ class PatchList:
 
     def clear(self) -> None:
         """Removes collected patches but leaves settings intact"""
-        self.patches.clear()
+        # patch type and settings can be changed by the user (modify()) and must survive
+        # clear() + assemble(); only the sides are collected again
+        for patch in self.patches.values():
+            patch.sides.clear()
 
     @property
     def description(self) -> str:
